@@ -54,8 +54,14 @@ func diskOf(u int) *nodestate.DiskState {
 	case u == -3:
 		return &nodestate.DiskState{Used: 20000, Total: 10000}
 	}
+	if u >= c18Fine {
+		return &nodestate.DiskState{Used: uint64(u - c18Fine), Total: 100000} // thousandths of a percent
+	}
 	return &nodestate.DiskState{Used: uint64(u), Total: 10000}
 }
+
+// c18Fine: usage values >= c18Fine are thousandths of a percent (u - c18Fine), for values within a rounding error of a threshold
+const c18Fine = 1000000
 
 func c18Run(in c18In) c18Out {
 	var out c18Out
@@ -132,6 +138,9 @@ func c18Monitor(m *vk.Meta, in c18In, out c18Out) {
 			return 0
 		case -3:
 			return 100
+		}
+		if u >= c18Fine {
+			return float64(u-c18Fine) / 1000
 		}
 		return float64(u) / 100
 	}
@@ -236,6 +245,12 @@ func c18Gen(o *vk.Out) c18In {
 	}
 	if r.Intn(6) == 0 {
 		in.Fault = []string{"ro:err", "rw:err", "dcs:err"}[r.Intn(3)]
+	}
+	if r.Intn(4) == 0 {
+		// within a rounding error (0.004 points) of a threshold: the comparison is with the exact usage
+		th := []int{in.Critical, in.NotCritical}[r.Intn(2)]
+		in.MasterUsage = c18Fine + th*10 + []int{-4, 4, -1, 1}[r.Intn(4)]
+		in.MasterFlag = true
 	}
 	return in
 }
